@@ -14,6 +14,15 @@ import os
 from . import common
 
 CLASSES = [["a", "b"], ["a", "b", "c"], ["pos", "w"], ["x"]]
+# constructor signatures a history may give its four component classes (the first entry is the table above); with
+# `class_names` several classes of one history carry the same __module__ / __qualname__ / __name__ (as classes returned
+# by a class factory do) and with `bases` one class derives from another and overrides its constructor
+CLASS_POOL = [
+    [["a", "b"], ["b", "a"], ["a"], ["a", "b", "c"], ["a", "c"], ["b"]],
+    [["a", "b", "c"], ["a", "b"], ["c", "a", "b"], ["a", "b", "x"], ["b"], ["a", "c"]],
+    [["pos", "w"], ["w", "pos"], ["pos", "w", "a"], ["pos"], ["a", "pos"]],
+    [["x"], ["x", "a"], ["a", "b"], ["b", "x", "a"], ["a", "b", "c"]],
+]
 MODEL_EXTRA = ["e", "f", "g"]
 COLL_KEYS = ["m", "n", "k", "q", "r", "s"]
 NPRIORS = 14
@@ -54,6 +63,8 @@ class MObj:
 class Mirror:
     def __init__(self, case):
         self.classes = case["classes"]
+        self.names = case.get("class_names") or ["K%d" % i for i in range(len(self.classes))]
+        self.bases = case.get("bases") or [None] * len(self.classes)
         self.limits = {p: (lo, hi) for p, lo, hi in case["priors"]}
         self.objs = []
         self.stale = {}        # frozen object -> labels of what changed below it since its cache could be filled
@@ -62,9 +73,22 @@ class Mirror:
         self.rewritten = set() # priors whose id Collection.__setitem__ overwrote
         self.poisoned = set()
         self.thawed_by_derive = set()
+        self.scrambled = set() # frozen objects whose caller edited a list a cached function returned, no model modified since
 
     def is_pm(self, v):
         return v[0] == "r" and v[1] < len(self.objs) and self.objs[v[1]].kind != "tuple"
+
+    # -- classes ----------------------------------------------------------------
+    def aliased(self, cls):
+        """is `module.name` of this class some OTHER class (an earlier one of the same name)?"""
+        return self.names.index(self.names[cls]) != cls
+
+    def by_name_ok(self, o):
+        """can o be stored in a form that names classes by their import path (database form)?"""
+        return not any(self.objs[t].kind == "model" and self.aliased(self.objs[t].cls) for t in self.reach(o))
+
+    def has_subclass(self, cls):
+        return any(b == cls for b in self.bases)
 
     # -- reachability ---------------------------------------------------------
     def reach(self, o, acc=None):
@@ -104,6 +128,8 @@ class Mirror:
         if self.rewritten and any(l[0] == "p" and l[1] in self.rewritten
                                   for t in rs for _, l in self.objs[t].attrs):
             out.add("setitem-existing-key")
+        if rs & self.scrambled:
+            out.add("returned-list-edited-by-caller")
         return sorted(out)
 
     # -- pure queries -----------------------------------------------------------
@@ -128,25 +154,50 @@ class Mirror:
                 out.append(([k] + p, l))
         return out
 
-    def models(self, o, cls, izd):
-        """models_with_type(cls, include_zero_dimension=izd): Models found with ignore_children=False"""
+    def model_tuples(self, o, cls, izd):
+        """model_tuples_with_type(cls, include_zero_dimension=izd): (attribute name, Model) found with ignore_children=False"""
         out = []
 
-        def rec(v, vis):
+        def rec(v, vis, name):
             if v[0] != "r":
                 return True
             if v[1] in vis:
                 return False
             ob = self.objs[v[1]]
             if ob.kind == "model":
-                out.append(v[1])
-            for _, cv in ob.attrs:
-                if not rec(cv, vis + (v[1],)):
+                out.append((name, v[1]))
+            for k, cv in ob.attrs:
+                if not rec(cv, vis + (v[1],), k):
                     break
             return True
-        rec(["r", o], ())
-        return [[[], ["r", c]] for c in out
+        rec(["r", o], (), "")
+        return [[[name], ["r", c]] for name, c in out
                 if (cls is None or self.objs[c].cls == cls) and (izd or self.count(c) > 0)]
+
+    def models(self, o, cls, izd):
+        """models_with_type(cls, include_zero_dimension=izd)"""
+        return [[[], l] for _, l in self.model_tuples(o, cls, izd)]
+
+    def raw(self, o, q):
+        """the value one frozen_cache function returns, in its own order"""
+        what = q[1]
+        if what == "pit":
+            return [[p, l] for p, l in self.walk(["r", o], q[2])]
+        if what == "attr":
+            return [[[p[-1]] if p else [""], l] for p, l in self.walk(["r", o], "prior")]
+        if what == "unique":
+            return [[p, l] for p, l in self.unique(o)]
+        if what == "direct":
+            want = q[2]
+            out = []
+            for k, v in self.objs[o].attrs:
+                if (want == "prior" and v[0] == "p") or (want == "float" and v[0] == "c") or \
+                        (want == "tuple" and v[0] == "r" and self.objs[v[1]].kind == "tuple") or (want == "pm" and self.is_pm(v)):
+                    out.append([[k], v])
+            return out
+        if what == "mtt":
+            return self.model_tuples(o, q[2], q[3])
+        raise ValueError(q)
 
     def unique(self, o):
         d = {}
@@ -285,6 +336,8 @@ class Mirror:
                 return {"ok": self.unit(o, q[1])}
             if k == "allpaths":
                 return {"ok": self.allpaths(o)}
+            if k == "raw":
+                return {"ok": self.raw(o, q)}
         except Mirror.Raise as e:
             return {"exc": str(e)}
         raise ValueError(q)
@@ -399,6 +452,21 @@ class Mirror:
     def apply(self, op):
         """Returns (expected outcome or None when unconstrained, labels of this op)."""
         k = op[0]
+        if k == "scramble":
+            # reference semantics: the returned list belongs to the caller, nothing happens to the model.  The code hands
+            # out the list object stored in the frozen cache (only unique_prior_tuples / prior_tuples_ordered_by_id are
+            # rebuilt by cast_collection), which stays in use until some model of the process is modified
+            if self.objs[op[1]].frozen and op[2][1] != "unique":
+                self.scrambled.add(op[1])
+                return {"ok": None}, ["returned-list-edited-by-caller"]
+            return {"ok": None}, []
+        exp, labels = self.apply_(op)
+        if k not in ("query", "failwalk") and not (exp is not None and "exc" in exp):
+            self.scrambled.clear()          # an accepted modification / construction / copy: every frozen cache is dropped
+        return exp, labels
+
+    def apply_(self, op):
+        k = op[0]
         if k == "new":
             _, kind, cls, attrs, nitems = op
             if kind == "model" and any(self.refuses_label(v) for _, v in attrs):
@@ -496,16 +564,23 @@ class Mirror:
 # generator
 # ---------------------------------------------------------------------------
 class Gen:
-    def __init__(self, rng, dirty, max_ops, failwalk=False, ids=False):
+    def __init__(self, rng, dirty, max_ops, failwalk=False, ids=False, shape=None, alias=False):
         self.rng, self.dirty, self.max_ops, self.failwalk, self.ids = rng, dirty, max_ops, failwalk, ids
+        self.alias = alias
+        shape = shape or {"classes": CLASSES, "class_names": ["K0", "K1", "K2", "K3"], "bases": [None] * 4}
+        self.classes = shape["classes"]
         pri = []
         for p in range(NPRIORS):
             lo = rng.choice([0, 0, 0, 1, 2])
             hi = lo + rng.choice([4, 4, 8, 12, 20])      # multiples of 4: units q/4 give integers
             pri.append([p, lo, hi])
-        self.case = {"classes": CLASSES, "priors": pri, "ops": []}
+        self.case = {"classes": self.classes, "class_names": shape["class_names"], "bases": shape["bases"], "priors": pri, "ops": []}
         self.m = Mirror(self.case)
         self.next_prior = 0
+        # prior ids are NOT handed out in the order in which attributes are filled: id order differs from traversal order
+        self.order = list(range(NPRIORS))
+        if rng.random() < 0.8:
+            rng.shuffle(self.order)
 
     def emit(self, op):
         self.case["ops"].append(op)
@@ -515,8 +590,8 @@ class Gen:
         r = self.rng
         if self.next_prior < NPRIORS and (self.next_prior == 0 or r.random() < 0.75):
             self.next_prior += 1
-            return ["p", self.next_prior - 1]
-        return ["p", r.randrange(max(1, self.next_prior))]
+            return ["p", self.order[self.next_prior - 1]]
+        return ["p", self.order[r.randrange(max(1, self.next_prior))]]
 
     def leafval(self):
         return self.prior() if self.rng.random() < 0.7 else ["c", self.rng.randint(1, 9)]
@@ -542,19 +617,33 @@ class Gen:
                 return ["r", r.choice(cands)]
         return self.leafval()
 
+    def new_model(self, cls, depth):
+        r = self.rng
+        attrs = []
+        for name in self.classes[cls]:
+            if name == "pos":
+                attrs.append([name, ["r", self.new_tuple()]])
+            else:
+                attrs.append([name, self.child_value(depth, avoid_frozen=r.random() < 0.9)])
+        if r.random() < 0.2:
+            attrs.append([r.choice(MODEL_EXTRA), ["c", r.randint(1, 9)] if r.random() < 0.7 else self.leafval()])
+        self.emit(["new", "model", cls, attrs, 0])
+        return len(self.m.objs) - 1
+
+    def rival_class(self):
+        """a class whose name some composed model's class also carries, with another constructor (None: no such class)"""
+        used = {ob.cls for ob in self.m.objs if ob.kind == "model"}
+        names = self.m.names
+        cands = [c for c in range(len(self.classes)) if c not in used and any(
+            names[u] == names[c] and self.classes[u] != self.classes[c] for u in used)]
+        cands += [c for c in range(len(self.classes)) if c not in used and any(
+            self.m.bases[c] == u or self.m.bases[u] == c for u in used)]
+        return self.rng.choice(cands) if cands else None
+
     def new_object(self, depth):
         r = self.rng
         if r.random() < 0.6:
-            cls = r.choice([0, 0, 1, 2, 3])
-            attrs = []
-            for name in CLASSES[cls]:
-                if name == "pos":
-                    attrs.append([name, ["r", self.new_tuple()]])
-                else:
-                    attrs.append([name, self.child_value(depth, avoid_frozen=r.random() < 0.9)])
-            if r.random() < 0.2:
-                attrs.append([r.choice(MODEL_EXTRA), ["c", r.randint(1, 9)] if r.random() < 0.7 else self.leafval()])
-            self.emit(["new", "model", cls, attrs, 0])
+            self.new_model(r.choice([0, 0, 1, 2, 3]), depth)
         else:
             n = r.randint(1, 3)
             if r.random() < 0.3:
@@ -581,7 +670,10 @@ class Gen:
         return vec
 
     def query(self, o):
-        k = self.rng.choice(["count", "count", "paths", "ordered", "instance", "instance", "info", "models", "unit", "allpaths"])
+        k = self.rng.choice(["count", "count", "paths", "ordered", "instance", "instance", "info", "models", "unit", "allpaths",
+                             "raw", "raw", "raw"])
+        if k == "raw":
+            return ["query", o, self.raw_query()]
         if k in ("instance", "unit") and self.m.loops(o) and self.rng.random() < 0.8:
             k = "count"
         if k == "unit":
@@ -591,8 +683,22 @@ class Gen:
                 qs = qs[:-1] if qs and self.rng.random() < 0.5 else qs + [2]
             return ["query", o, [k, qs]]
         if k == "models":
-            return ["query", o, [k, self.rng.choice([None, None, 0, 1, 2, 3]), self.rng.random() < 0.4]]
+            # a class with subclasses is not used as the filter (the model compares classes by identity)
+            return ["query", o, [k, self.rng.choice([None, None] + [c for c in range(len(self.classes)) if not self.m.has_subclass(c)]),
+                                 self.rng.random() < 0.4]]
         return ["query", o, [k, self.vector(o)] if k == "instance" else [k]]
+
+    def raw_query(self):
+        r = self.rng
+        what = r.choice(["pit", "pit", "pit", "attr", "unique", "direct", "mtt"])
+        if what == "pit":
+            return ["raw", "pit", r.choice(["prior", "prior", "prior", "tuple", "param"])]
+        if what == "direct":
+            return ["raw", "direct", r.choice(["prior", "float", "tuple", "pm"])]
+        if what == "mtt":
+            return ["raw", "mtt", r.choice([None, None] + [c for c in range(len(self.classes)) if not self.m.has_subclass(c)]),
+                    r.random() < 0.4]
+        return ["raw", what]
 
     def allowed_mod(self, t):
         """clean histories never modify anything that sits under a frozen object"""
@@ -607,6 +713,11 @@ class Gen:
         r, m = self.rng, self.m
         pms = self.pms()
         x = r.random()
+        if self.alias and r.random() < 0.15:
+            o = r.choice([i for i in pms if m.objs[i].frozen] or pms)
+            rq = self.raw_query()
+            self.emit(["scramble", o, rq])
+            return ["query", o, rq] if r.random() < 0.5 else self.query(o)
         if x < 0.40:
             return self.query(r.choice(pms))
         if x < 0.52:
@@ -621,7 +732,7 @@ class Gen:
                 if not self.allowed_mod(o):
                     return None
                 return ["set", o, "pos_%d" % r.randint(0, 3), self.leafval()]
-            if ob.kind == "model" and ob.cls == 2 and r.random() < 0.5:
+            if ob.kind == "model" and "pos" in self.classes[ob.cls] and r.random() < 0.5:
                 name = r.choice(["pos_%d" % r.randint(0, 2)] * 4 + ["pos_0_1", "w_1"])
                 t = m.set_target(o, name)
                 if not ob.frozen and not self.allowed_mod(t):
@@ -629,7 +740,7 @@ class Gen:
                 return ["set", o, name, self.leafval()]
             if not ob.frozen and not self.allowed_mod(o):
                 return None
-            names = (CLASSES[ob.cls] + MODEL_EXTRA) if ob.kind == "model" else COLL_KEYS
+            names = (self.classes[ob.cls] + MODEL_EXTRA) if ob.kind == "model" else COLL_KEYS
             name = r.choice([n for n in names if n != "pos"] or names)
             if ob.kind == "coll" and r.random() < (0.7 if self.ids else 0.4):
                 if self.ids and ob.attrs and r.random() < 0.7:
@@ -642,7 +753,7 @@ class Gen:
                 else:
                     v = self.leafval()
                     if self.ids and self.next_prior > 1 and r.random() < 0.6:
-                        v = ["p", r.randrange(self.next_prior)]      # a prior other models already hold
+                        v = ["p", self.order[r.randrange(self.next_prior)]]      # a prior other models already hold
                 return ["setitem", o, name, v]
             if r.random() < 0.03 and ob.kind != "tuple":
                 return ["set", o, name, ["r", o]]              # self-reference: exercises the recursion guard
@@ -682,7 +793,7 @@ class Gen:
                 return ["copy", o]
             if y < 0.6:
                 return ["copy", o, "pickle"]
-            if y < 0.8 or m.loops(o):
+            if y < 0.8 or m.loops(o) or not m.by_name_ok(o):      # the database form names a class by its import path
                 return ["restore", o, "shallow"]
             return ["restore", o, "database"]
         if x < 0.93:
@@ -692,7 +803,13 @@ class Gen:
             return ["derive", o]
         if x < 0.96:
             if len(m.objs) < 40:
-                self.new_object(r.randint(0, 1))
+                rival = self.rival_class()
+                if rival is not None and r.random() < 0.6:
+                    o = self.new_model(rival, r.randint(0, 1))     # a model of another class of the same name, mid-history
+                    if self.m.objs[o].kind == "model" and self.m.objs[o].cls == rival:     # (not refused: no frozen value)
+                        self.emit(self.query(o))
+                else:
+                    self.new_object(r.randint(0, 1))
             return None
         if self.failwalk:
             return ["failwalk", r.choice(pms)]
@@ -710,6 +827,11 @@ class Gen:
         r = self.rng
         for _ in range(r.randint(1, 3)):
             self.new_object(r.randint(0, 2))
+        # several models alive at once whose classes share a name (or a parent) and differ in their constructor
+        for _ in range(2):
+            rival = self.rival_class()
+            if rival is not None and r.random() < 0.7:
+                self.new_model(rival, r.randint(0, 1))
         # make sure a root collection over several live models exists in most cases
         if r.random() < 0.7 and len(self.pms()) >= 2:
             kids = r.sample(self.pms(), min(len(self.pms()), r.randint(1, 3)))
@@ -734,7 +856,9 @@ def scenario_cases():
     """Hand-written histories: one per mechanism (always run first)."""
     P = lambda i: ["p", i]
     pri = [[p, 0, 8] for p in range(NPRIORS)]
-    base = lambda ops: {"classes": CLASSES, "priors": pri, "ops": ops}
+    base = lambda ops, classes=CLASSES, names=None, bases=None: {
+        "classes": classes, "class_names": names or ["K%d" % i for i in range(len(classes))],
+        "bases": bases or [None] * len(classes), "priors": pri, "ops": ops}
     leafm = lambda a, b: ["new", "model", 0, [["a", P(a)], ["b", P(b)]], 0]
     qs = lambda o: [["query", o, ["count"]], ["query", o, ["paths"]], ["query", o, ["ordered"]], ["query", o, ["info"]],
                     ["query", o, ["models", None, False]], ["query", o, ["models", 0, True]]]
@@ -815,7 +939,84 @@ def scenario_cases():
     out.append(base([["new", "coll", None, [["m", P(0)]], 0], ["set", 0, "q", ["r", 0]], ["set", 0, "n", P(1)], ["query", 0, ["count"]],
                      ["query", 0, ["paths"]], ["query", 0, ["info"]], ["freeze", 0], ["query", 0, ["count"]], ["copy", 0],
                      ["query", 1, ["count"]], ["query", 0, ["models", None, True]], ["unfreeze", 0], ["del", 0, "q"], ["query", 0, ["count"]]]))
+    # several models alive at once whose classes are distinct objects of ONE name (a class factory) with different
+    # constructors: what each reports depends on its own class only, whichever was composed first, also on frozen
+    # copies and after freeze / unfreeze cycles
+    narrow = lambda a, b: ["new", "model", 0, [["a", P(a)], ["b", P(b)]], 0]
+    wide = lambda a, b, c: ["new", "model", 1, [["a", P(a)], ["b", P(b)], ["c", c]], 0]
+    ask = lambda o, vec: [["query", o, ["count"]], ["query", o, ["paths"]], ["query", o, ["instance", vec]], ["query", o, ["info"]],
+                          ["query", o, ["unit", [1] * len(vec)]], ["query", o, ["models", None, True]]]
+    for names, bases in ((["P", "P", "Q", "P"], None), (["P", "Q", "R", "S"], [None, 0, None, None]), (["P", "P", "P", "P"], [None, 0, None, 1])):
+        for first in (0, 1):
+            two = [narrow(0, 1), wide(2, 3, ["c", 5])] if first == 0 else [wide(2, 3, ["c", 5]), narrow(0, 1)]
+            n, w = (0, 1) if first == 0 else (1, 0)
+            out.append(base(two + ask(n, [1, 2]) + ask(w, [3, 4]) +
+                            [["new", "coll", None, [["m", ["r", 0]], ["n", ["r", 1]]], 0]] + ask(2, [1, 2, 3, 4]) +
+                            [["freeze", 2]] + ask(2, [1, 2, 3, 4]) + [["copy", 2], ["copy", 2, "pickle"], ["restore", w, "shallow"]] +
+                            ask(3, [1, 2, 3, 4]) + ask(6, [4, 3, 2, 1]) + [["unfreeze", 2], ["set", w, "c", P(4)], ["set", n, "e", ["c", 7]]] +
+                            ask(w, [3, 4, 5]) + ask(n, [1, 2]) + ask(2, [1, 2, 3, 4, 5]) +
+                            [["new", "model", 3, [["x", P(6)]], 0], ["derive", 2]] + ask(10, [2]) + ask(w, [3, 4, 5]),
+                            classes=[["a", "b"], ["a", "b", "c"], ["pos", "w"], ["x"]], names=names, bases=bases))
+    # same name, same arguments in another order / a subset of the arguments / disjoint arguments
+    for table in ([["a", "b"], ["b", "a"], ["pos", "w"], ["a"]], [["a", "b", "c"], ["c"], ["w", "pos"], ["b", "x", "a"]]):
+        for order in ((0, 1, 3), (3, 1, 0), (1, 3, 0)):
+            ops, objs = [], {}
+            for c in order:
+                ops.append(["new", "model", c, [[nm, P(len(ops) * 3 + j)] for j, nm in enumerate(table[c])], 0])
+                objs[c] = len(ops) - 1
+            for c in order:
+                vec = list(range(1, len(table[c]) + 1))
+                ops += ask(objs[c], vec) + [["freeze", objs[c]]] + ask(objs[c], vec)
+            out.append(base(ops, classes=table, names=["P", "P", "P", "P"]))
+    # every answer after every other query: prior ids out of traversal order, a shared prior, a tuple prior; all queries
+    # (incl. the raw return value of each frozen_cache function) unfrozen, frozen (filling the caches), again in reverse
+    # and rotated orders (answered from the caches after every other query has run), on a child, on a copy, after unfreeze
+    def allq(o, vec, units):
+        return [["query", o, q] for q in (
+            ["count"], ["raw", "pit", "prior"], ["paths"], ["raw", "pit", "prior"], ["ordered"], ["info"], ["allpaths"],
+            ["raw", "pit", "prior"], ["models", None, True], ["models", 0, False], ["unit", units], ["instance", vec],
+            ["raw", "pit", "tuple"], ["raw", "pit", "param"], ["raw", "attr"], ["raw", "unique"], ["raw", "direct", "prior"],
+            ["raw", "direct", "float"], ["raw", "direct", "tuple"], ["raw", "direct", "pm"], ["raw", "mtt", None, True],
+            ["raw", "mtt", 1, False], ["raw", "pit", "prior"])]
+    build = [["new", "tuple", None, [["pos_0", P(5)], ["pos_1", ["c", 2]]], 0], ["new", "model", 2, [["pos", ["r", 0]], ["w", P(1)]], 0],
+             ["new", "model", 0, [["a", P(4)], ["b", P(0)]], 0], ["new", "model", 1, [["a", P(3)], ["b", P(0)], ["c", ["c", 7]]], 0],
+             ["new", "coll", None, [["m", ["r", 2]], ["n", ["r", 1]], ["k", ["r", 3]], ["q", P(2)]], 0]]
+    A = allq(4, [1, 2, 3, 4, 5, 6], [0, 1, 2, 3, 4, 2])
+    # the caller edits the lists it was handed by a frozen model (reverse, drop one entry) and asks again
+    raws = [q[2] for q in A if q[2][0] == "raw"]
+    ops = build + [["freeze", 4]]
+    for rq in raws[1:]:
+        ops += [["query", 4, rq], ["scramble", 4, rq], ["query", 4, rq]]
+    ops += A + [["scramble", 2, ["raw", "direct", "prior"]], ["query", 4, ["instance", [1, 2, 3, 4, 5, 6]]], ["query", 2, ["instance", [1, 2]]],
+                ["new", "model", 3, [["x", P(7)]], 0]] + A + [["unfreeze", 4], ["scramble", 4, ["raw", "pit", "prior"]]] + A
+    out.append(base(ops))
+    out.append(base(build + A + [["freeze", 4]] + A + A[::-1] + A[7:] + A[:7] + allq(2, [1, 2], [1, 3]) + allq(3, [1, 2], [4, 0]) +
+                    [["copy", 4]] + allq(5, [1, 2, 3, 4, 5, 6], [4, 3, 2, 1, 0, 2]) + A[::-1] + [["unfreeze", 4]] + A))
     return out
+
+
+def class_shape(rng):
+    """class table of a generated history: constructor signatures, names, parents"""
+    x = rng.random()
+    if x < 0.25:
+        return {"classes": CLASSES, "class_names": ["K0", "K1", "K2", "K3"], "bases": [None] * 4}
+    classes = [pool[0] if rng.random() < 0.45 else rng.choice(pool) for pool in CLASS_POOL]
+    y = rng.random()
+    names = ["P"] * 4 if y < 0.4 else [rng.choice(["P", "P", "Q"]) for _ in range(4)] if y < 0.85 else ["K0", "K1", "K2", "K3"]
+    bases = [None] * 4
+    if rng.random() < 0.3:
+        for c in rng.sample([1, 2, 3], rng.choice([1, 1, 2])):
+            bases[c] = rng.randrange(c)
+    return {"classes": classes, "class_names": names, "bases": bases}
+
+
+def case_key(c):
+    key = {"classes": c["classes"], "priors": c["priors"], "ops": c["ops"]}
+    if c.get("class_names") is not None:
+        key["class_names"] = c["class_names"]
+    if c.get("bases") is not None:
+        key["bases"] = c["bases"]
+    return key
 
 
 def gen_cases(ctx):
@@ -830,9 +1031,9 @@ def gen_cases(ctx):
                 cases.append(dict(c.get("case", c), origin="corpus", name=f, signature=c.get("signature")))
     for i in range(n):
         x = ctx.rng.random()
-        mode = "clean" if x < 0.55 else "stale" if x < 0.78 else "ids" if x < 0.90 else "poison"
+        mode = "clean" if x < 0.52 else "stale" if x < 0.75 else "ids" if x < 0.87 else "poison" if x < 0.95 else "alias"
         g = Gen(ctx.rng, mode in ("stale", "poison"), ctx.rng.choice([12, 20, 30, 40] + ([60] if thorough else [])),
-                failwalk=(mode == "poison"), ids=(mode == "ids"))
+                failwalk=(mode == "poison"), ids=(mode == "ids"), shape=class_shape(ctx.rng), alias=(mode == "alias"))
         c = g.build()
         c["origin"] = mode
         cases.append(c)
@@ -876,6 +1077,13 @@ def oracle(case, res, limit=6):
             target_uncertain = any(m.lost.get(f) for f in m.reach(op[1]))
         exp, labels = m.apply(op)
         got = {"exc": r["exc"]} if "exc" in r else {"ok": r.get("ok")}
+        if k in ("query", "new") and r.get("ctor") is not None and (k == "query" or (exp is not None and "ok" in exp)):
+            ob = m.objs[op[1]] if k == "query" else m.objs[-1]
+            if ob.kind != "model" or r["ctor"] != m.classes[ob.cls]:
+                if fail("constructor_argument_names of %s is %s but its class takes %s" % (
+                        "object %d" % op[1] if k == "query" else "the new model", r["ctor"],
+                        m.classes[ob.cls] if ob.kind == "model" else None), [], i):
+                    break
         if k == "query":
             classes = pre_relevant
             if "ok" in got:
@@ -887,6 +1095,14 @@ def oracle(case, res, limit=6):
                 if fail("%s of object %d is %s but the current composition gives %s" % (
                         op[2][0], op[1], json.dumps(got)[:300], json.dumps(exp)[:300]), classes, i):
                     break
+            ws = r.get("with_shadow")
+            if ws is not None:
+                if "ok" in ws:
+                    ws = {"ok": norm_answer(op[2], ws["ok"])}
+                if ws != got:
+                    if fail("%s of object %d is %s in the plain history but %s when unrelated deep copies were made and thawed "
+                            "between the operations" % (op[2][0], op[1], json.dumps(got)[:300], json.dumps(ws)[:300]), classes, i):
+                        break
             sh = r.get("shadow", {})
             sh = {"ok": norm_answer(op[2], sh["ok"])} if "ok" in sh else sh
             if sh != exp:
@@ -981,11 +1197,33 @@ def nontrivial(case):
         k = op[0]
         if k == "freeze":
             froze = True
-        elif froze and k in ("set", "setitem", "append", "del", "unfreeze", "copy", "restore", "failwalk", "derive"):
+        elif froze and k in ("set", "setitem", "append", "del", "unfreeze", "copy", "restore", "failwalk", "derive", "scramble"):
             changed = True
         elif k == "query" and froze and changed:
             return True
     return False
+
+
+def rival_pairs(case):
+    """pairs of classes BOTH composed in the history that share a name (or are parent and child) and differ in
+    their constructor -- the shape in which a per-class answer could leak from one class to another"""
+    m = Mirror(case)
+    used = []
+    for op in case["ops"]:
+        if op[0] == "new" and op[1] == "model" and op[2] not in used:
+            used.append(op[2])
+    return [(u, v) for i, u in enumerate(used) for v in used[i + 1:]
+            if m.classes[u] != m.classes[v] and (m.names[u] == m.names[v] or m.bases[u] == v or m.bases[v] == u)]
+
+
+def class_table_kind(case):
+    m = Mirror(case)
+    kind = "default-table" if case["classes"] == CLASSES else "varied-table"
+    if len(set(m.names)) < len(m.names):
+        kind += "+shared-names"
+    if any(b is not None for b in m.bases):
+        kind += "+subclass"
+    return kind + ("+rivals-composed" if rival_pairs(case) else "")
 
 
 # ---------------------------------------------------------------------------
@@ -1045,7 +1283,7 @@ def coutcome(op, r):
     a, k = r["ok"], op[2][0]
     if k == "count":
         return "Ok (ANat %d)" % a
-    if k in ("paths", "ordered", "models"):
+    if k in ("paths", "ordered", "models", "raw"):
         return "Ok (AItems %s)" % citems(a)
     if k in ("instance", "unit"):
         return "Ok (AInst (%s))" % cinst(a)
@@ -1053,6 +1291,21 @@ def coutcome(op, r):
         return "Ok (AGroups %s)" % clist([clist([cpath(p) for p in g]) for g in a])
     ents = clist(["(%s, %s, %d%%nat)" % (cpath(p), "None" if c is None else "Some %d%%nat" % c, n) for p, c, n in a["b"]])
     return "Ok (AInfo %s %d %s)" % (citems(a["a"]), a["n"], ents)
+
+
+def craw(q):
+    what = q[1]
+    if what == "pit":
+        return {"prior": "(KPit SPrior 0)", "tuple": "(KPit STuple 0)", "param": "(KPit SParam 2)"}[q[2]]
+    if what == "attr":
+        return "(KAttr SPrior 0)"
+    if what == "unique":
+        return "KUnique"
+    if what == "direct":
+        return "(KDirect %s)" % {"prior": "DPrior", "float": "DFloat", "tuple": "DTuple", "pm": "DPriorModel"}[q[2]]
+    if what == "mtt":
+        return "(KMtt %s %s)" % ("None" if q[2] is None else "(Some %d)" % q[2], "true" if q[3] else "false")
+    raise ValueError(q)
 
 
 def cop(op):
@@ -1070,6 +1323,8 @@ def cop(op):
             qq = "(QUnit %s)" % clist(["(%d)%%Z" % x for x in q[1]])
         if q[0] == "allpaths":
             qq = "QAllPaths"
+        if q[0] == "raw":
+            qq = "(QRaw %s)" % craw(q)
         if q[0] == "models":
             qq = "(QModels %s %s)" % ("None" if q[1] is None else "(Some %d)" % q[1], "true" if q[2] else "false")
         return "OQuery %d %s" % (op[1], qq)
@@ -1096,6 +1351,11 @@ def cop(op):
     raise ValueError(op)
 
 
+def has_scramble(case):
+    """histories in which the CALLER edits a returned list have no counterpart in the model (lists are values there)"""
+    return any(op[0] == "scramble" for op in case["ops"])
+
+
 def coq_case(case, res):
     cl = clist([clist([cs(n) for n in names]) for names in case["classes"]])
     pr = clist(["(%d%%nat, ((%d)%%Z, (%d)%%Z))" % (p, lo, hi) for p, lo, hi in case["priors"]])
@@ -1103,6 +1363,28 @@ def coq_case(case, res):
     outs = clist([coutcome(op, r) for op, r in zip(case["ops"], res["outs"])])
     fz = clist(["true" if b else "false" for b in res["frozen"]])
     return "Case %s %s\n   %s\n   %s\n   %s" % (cl, pr, ops, outs, fz)
+
+
+def coq_ccase(case, res):
+    """the lookups of the process-wide constructor-argument memo made by the history, in order, with what the model
+    reported (ClassArgs.v): one per composed Model (its class) and one per query addressed to a Model"""
+    m = Mirror(case)
+    h = []
+    for op, r in zip(case["ops"], res["outs"]):
+        cls = None
+        if op[0] == "new" and op[1] == "model":
+            cls = op[2]
+        elif op[0] == "query" and op[1] < len(m.objs) and m.objs[op[1]].kind == "model":
+            cls = m.objs[op[1]].cls
+        try:
+            m.apply(op)
+        except Exception:  # noqa  (the reference cannot follow: the oracle has reported the history)
+            break
+        if cls is not None:
+            obs = r.get("ctor")
+            h.append("(%d, %s)" % (cls, "None" if obs is None else "Some %s" % clist([cs(x) for x in obs])))
+    cl = clist([clist([cs(n) for n in names]) for names in case["classes"]])
+    return "CCase %s %s" % (cl, clist(h))
 
 
 HEADER = """From Coq Require Import ZArith List String Bool.
@@ -1118,7 +1400,14 @@ def run(ctx):
     ctx.rule = ("a case is an operation history (new / query[count, paths, ordered ids, instance for a vector, instance for a unit "
                 "vector, all_paths, info, models_with_type] / freeze / unfreeze / setattr (incl. self-reference) / Collection.__setitem__ "
                 "(new and existing keys) / append / delattr / deepcopy and pickle round trip / prior passing (mapper_from_prior_arguments) / "
-                "failing walk call) over a heap of Model, Collection and TuplePrior objects with shared children and several roots; modes: "
+                "failing walk call / the exact return value of each of the seven frozen_cache functions (query raw) / a caller editing a "
+                "returned list (scramble)) over a heap of Model, Collection and TuplePrior objects with shared children and several roots; "
+                "the four component classes of a history get their constructor signatures from a pool, may share one __name__/__qualname__/"
+                "__module__ (distinct class objects, as from a class factory) and may derive from each other; prior ids are handed out in "
+                "an order different from the traversal order; the compared replay contains the history and nothing else (the shadow deep "
+                "copies run in a second replay, because copying / thawing advances the modification counter); modes: "
+                "'alias' (the caller reverses / shortens lists a frozen model returned; oracle only, known finding "
+                "returned-list-edited-by-caller until proposed_fixes/C13-frozen-cache-returns-copy is applied), "
                 "'clean' (nothing is attempted below a frozen object), 'stale' (modifications, deletions, tuple members and thawed "
                 "components below frozen ancestors), 'ids' (item assignment of shared priors over existing keys), 'poison' (failing "
                 "calls); since 29fc8b9 no mode has a finding label and every history is checked against the full theorem; a case is "
@@ -1133,6 +1422,12 @@ def run(ctx):
         "model.info is checked to be a function of the compared lists by re-rendering in the driver",
     ]
     ctx.assumptions = [
+        "classes are abstract identities (index of the class table): two classes of one name are two classes; the process-wide "
+        "constructor-argument memo is modelled separately (ClassArgs.v) and compared through constructor_argument_names observed at "
+        "every composed Model and every query on a Model; class names are private to a history (suffix), so reuse of names or of "
+        "id(cls) ACROSS histories of one driver process is exercised but not replayable; the database form names classes by import "
+        "path and is not generated for models of a class whose name an earlier class of the history carries; a class with subclasses "
+        "is not used as the models_with_type filter",
         "the walk is modelled with fuel 12 (object graphs deeper than 12 are outside the model; generated graphs have depth <= 6; "
         "C13_freeze_reaches_descendants carries the success of freeze as a hypothesis); only direct self-references are generated as cycles",
         "Python object identity is an abstract object id; reuse of id() values after garbage collection is not modelled "
@@ -1148,7 +1443,7 @@ def run(ctx):
         rp = json.load(open(ctx.replay))
         if rp.get("case"):
             cases = [rp["case"]]
-    payload = [{"classes": c["classes"], "priors": c["priors"], "ops": c["ops"]} for c in cases]
+    payload = [case_key(c) for c in cases]
     chunks = [payload[i::common.NCPU] for i in range(common.NCPU)]
     chunks = [(i, ch) for i, ch in enumerate(chunks) if ch]
     outs = common.run_impl_parallel("c13_impl", [{"cases": ch} for _, ch in chunks], timeout=1500)
@@ -1159,11 +1454,12 @@ def run(ctx):
             return
         for j, r in enumerate(o["results"]):
             results[i + j * common.NCPU] = r
-    coq_cases, coq_idx = [], []
+    coq_cases, coq_idx, ccases = [], [], []
     regress = []
     for i, (c, r) in enumerate(zip(cases, results)):
-        key = {"classes": c["classes"], "priors": c["priors"], "ops": c["ops"]}
+        key = case_key(c)
         ctx.count_case(key, nontrivial(c), c.get("origin"))
+        ctx.hist("class-table", class_table_kind(c))
         ctx.hist("ops", (len(c["ops"]) // 10) * 10)
         for op in c["ops"]:
             ctx.hist("op", op[0] if op[0] != "query" else "query:" + op[2][0])
@@ -1184,7 +1480,11 @@ def run(ctx):
             ctx.hist("oracle-failure-class", ",".join(classes) or "none")
             ctx.failure("oracle", "op %d: %s" % (at, msg), key, classes=classes,
                         impl={"outs": [{k: v for k, v in rec.items() if k != "shadow"} for rec in r["outs"][max(0, at - 3):at + 1]]})
+        if has_scramble(c):
+            ctx.hist("oracle-only", "caller-edits-returned-list")
+            continue
         coq_cases.append(coq_case(c, r))
+        ccases.append(coq_ccase(c, r))
         coq_idx.append(i)
         if i % 53 == 0:
             ctx.sample({"ops": c["ops"][:14], "origin": c.get("origin")}, limit=6)
@@ -1203,7 +1503,7 @@ def run(ctx):
         bad, log = ctx.eval_cases(HEADER, "case", "check_case", coq_cases, shard=40 if ctx.tier == "quick" else 120)
         for b in (bad or [])[:5]:
             i = coq_idx[b]
-            key = {"classes": cases[i]["classes"], "priors": cases[i]["priors"], "ops": cases[i]["ops"]}
+            key = case_key(cases[i])
             ctx.failure("correspondence", "model and implementation disagree on a history (origin %s)" % cases[i].get("origin"),
                         key, impl={"outs": [{k: v for k, v in rec.items() if k not in ("shadow",)} for rec in results[i]["outs"]],
                                    "frozen": results[i]["frozen"]},
@@ -1221,8 +1521,20 @@ def run(ctx):
                 i = coq_idx[free[b]]
                 ctx.failure("correspondence", "a history without finding labels does not satisfy the guard of C13_coherent_partial "
                             "(or the model's answers differ from the fresh composition)",
-                            {"classes": cases[i]["classes"], "priors": cases[i]["priors"], "ops": cases[i]["ops"]},
+                            case_key(cases[i]),
                             broken={"kind": "correspondence", "name": "C13.check_guard"}, found_input=False)
+        if os.path.exists(os.path.join(common.COQ, "C13", "ClassArgs.vo")):
+            badc, log = ctx.eval_cases(HEADER + "\nFrom PAFC13 Require Import ClassArgs.", "ccase", "check_ccase", ccases,
+                                       tag="classargs", shard=150 if ctx.tier == "quick" else 600)
+            for b in (badc or [])[:3]:
+                i = coq_idx[b]
+                ctx.failure("correspondence", "constructor_argument_names reported along the history differ from the memo keyed by the class "
+                            "(ClassArgs.class_args_run)", case_key(cases[i]),
+                            impl={"ctor": [rec.get("ctor") for rec in results[i]["outs"]]},
+                            broken={"kind": "correspondence", "name": "C13.check_ccase"},
+                            found_input=bool(oracle(cases[i], results[i])))
+        else:
+            ctx.obligation("correspondence:classargs", "correspondence", False, "ClassArgs.vo not built")
     else:
         ctx.obligation("correspondence:cases", "correspondence", False, "Model.vo not built")
 
@@ -1231,12 +1543,18 @@ MANIFEST = {
     "text": "Coq 8.16 theorems over an executable heap model of Model/Collection/TuplePrior objects with frozen_cache (incl. the "
             "modification counter), assert_not_frozen on setattr/delattr/append/setitem/remove, recursive freeze/unfreeze reaching "
             "tuple priors, deepcopy, prior passing, item assignment and the process-wide recursion cache: for the code as it is, "
-            "every query of EVERY history equals the uncached query on the current composition (C13_coherent_full, no guard); freeze "
+            "every query of EVERY history -- including the raw return value, in its own order, of each of the seven frozen_cache "
+            "functions (QRaw) -- equals the uncached query on the current composition (C13_coherent_full, no guard); the process-wide "
+            "constructor-argument memo keyed by the class object has no history effects, a key is sound iff it separates classes with "
+            "different constructors, and a name-keyed memo leaks as soon as two composed classes share the name (C13_class_args_*); freeze "
             "reaches every Model/Collection/TuplePrior descendant, which then reject assignment and deletion; setattr / setitem are "
             "local; prior passing is a query; the six former defects are kept as legacy refutations and pinned as regression "
             "histories; plus vm_compute correspondence of the model with the running code on generated histories and a direct "
             "oracle against a cache-free reference",
     "note": "Trusted: Coq kernel + vm_compute, the abstraction in harness/vcheck/c13.py and harness/impl/c13_impl.py. Object identity is "
-            "abstract (id() reuse not modelled), walk fuel 12, info is compared through the lists it is rendered from.",
+            "abstract (id() reuse not modelled), walk fuel 12, info is compared through the lists it is rendered from. Cached results are "
+            "values in the model (no aliasing): a caller that edits a list returned by a frozen model changes its later answers in the code "
+            "as it is (known finding returned-list-edited-by-caller, repair proposed: frozen_cache returns a copy); those histories are "
+            "oracle-only. Class tables vary per history (shared names, subclasses, permuted / sub- / superset constructor signatures).",
     "technique": "machine-checked proof in Coq (state-machine model, invariant) + vm_compute correspondence",
 }
